@@ -61,8 +61,8 @@ def joinOr (sep : String) (l : List String) : String := if l.isEmpty then "_" el
 def showTok (t : Tok) : String := ttName t.typ ++ "/" ++ encCps t.val
 
 def showQItem : QItem → String
-  | .tok t v => ttName t ++ "/" ++ encCps v
-  | .comment v => "C/" ++ encCps v
+  | .tok t => ttName t.typ ++ "/" ++ encCps t.val
+  | .comment t => "C/" ++ encCps t.val
   | .value _ t => "V/" ++ encCps t.text
 
 def showMQ (q : MQ) : String :=
